@@ -151,6 +151,22 @@ def run_case(sc):
         e = copy.deepcopy(conf2); e["warm_start"] = {}; e["output"]["filename"] = str(d / "out_explicit.nc")
         e.setdefault("grid", dict(module="ladim.ROMS", filename=sorted(globmod.glob(str(d / "forcing_*.nc")))[0]))
         spellings["v2_explicit_sections"] = ("yaml", e)
+        # a forcing module that is NOT the built-in one: the defaulted grid must come from it
+        if not sc["subgrid"]:
+            (d / "halfmetric_roms.py").write_text(
+                "from ladim.ROMS import Grid as _G, Forcing\n"
+                "class Grid(_G):\n"
+                "    def metric(self, X, Y):\n"
+                "        A, B = super().metric(X, Y)\n"
+                "        return 2 * A, 2 * B\n")
+            um = copy.deepcopy(conf2); um.pop("grid", None)
+            um["forcing"]["module"] = str(d / "halfmetric_roms.py")
+            um["output"]["filename"] = str(d / "out_usermod_nogrid.nc")
+            spellings["usermodule_no_grid_section"] = ("yaml", um)
+            ue = copy.deepcopy(um)
+            ue["grid"] = dict(module=str(d / "halfmetric_roms.py"), filename=sorted(globmod.glob(str(d / "forcing_*.nc")))[0])
+            ue["output"]["filename"] = str(d / "out_usermod_explicit.nc")
+            spellings["usermodule_explicit_grid"] = ("yaml", ue)
         pattern = conf2["forcing"]["filename"]
         out["globs"] = {pattern: sorted(globmod.glob(pattern))}
         for name, (fmt, conf) in spellings.items():
@@ -208,9 +224,17 @@ def run(ctx: Ctx):
         if ref["status"] != "ok":
             ctx.violation("failing-input", "three-spellings", scen.brief(sc), dict(v2yaml_status=ref["status"]), tags=dict(first="status")); continue
         for name, r in g["runs"].items():
-            if name == "v2yaml":
+            if name in ("v2yaml", "usermodule_explicit_grid"):
                 continue
             ctx.count("spelling:" + name)
+            if name == "usermodule_no_grid_section":
+                ref_ = g["runs"]["usermodule_explicit_grid"]
+                if r["status"] != "ok" or ref_["status"] != "ok" or r["files"] != ref_["files"]:
+                    ctx.violation("failing-input", "three-spellings", dict(scenario=scen.brief(sc), spelling=name),
+                                  dict(status=[r["status"], ref_["status"]], note="forcing module given by path (a Grid with another metric); the omitted grid section must use it",
+                                       explicit_grid=str(ref_["files"])[:300], omitted_grid=str(r["files"])[:300], theorem="Ladim.C18.grid_default_from_forcing"),
+                                  tags=dict(first=name))
+                continue
             if r["status"] != "ok" or r["files"] != ref["files"]:
                 what = "status" if r["status"] != "ok" else next((k for k in ref["files"][0] if r["files"] and r["files"][0].get(k) != ref["files"][0].get(k)), "files")
                 ctx.violation("failing-input", "three-spellings", dict(scenario=scen.brief(sc), spelling=name),
